@@ -219,7 +219,74 @@ fn cross_mode(i: &Input) -> Outcome {
     )
 }
 
+// ---------------------------------------------------------------------
+// Signatures whose commitment R or public key A carries a small-order (8-torsion) component without being small
+// order itself.  No signer produces them and no bit flip reaches them: they are constructed with libsodium's group
+// and scalar primitives.  libsodium compares [S]B - [k]A with R exactly (cofactorless), so it rejects them unless
+// the torsion parts happen to cancel; a cofactored comparison accepts all of them.  The verdict is libsodium's.
+// ---------------------------------------------------------------------
+
+/// A point of order 8 (from libsodium's small-order list).
+const T8: [u8; 32] = [
+    0xc7, 0x17, 0x6a, 0x70, 0x3d, 0x4d, 0xd8, 0x4f, 0xba, 0x3c, 0x0b, 0x76, 0x0d, 0x10, 0x67, 0x0f, 0x2a, 0x20, 0x53, 0xfa,
+    0x2c, 0x39, 0xcc, 0xc6, 0x4e, 0xc7, 0xfd, 0x77, 0x92, 0xac, 0x03, 0x7a,
+];
+const DOM2_PH: &[u8] = b"SigEd25519 no Ed25519 collisions\x01\x00";
+
+/// j * T8 for j = 0..8 (index 0 is the identity).
+fn torsion_points() -> Vec<[u8; 32]> {
+    let mut identity = [0u8; 32];
+    identity[0] = 1;
+    let mut v = vec![identity];
+    for j in 1..8 {
+        match so::ed25519_add(&v[j - 1], &T8) {
+            Some(p) => v.push(p),
+            None => panic!("{} libsodium cannot add the torsion point", HARNESS),
+        }
+    }
+    if so::ed25519_add(&v[7], &T8) != Some(identity) {
+        panic!("{} T8 does not have order 8", HARNESS);
+    }
+    v
+}
+
+fn sha512_cat(parts: &[&[u8]]) -> [u8; 64] {
+    so::sha512(&parts.concat())
+}
+
+/// (sig, pk') with R' = rB + t_r, A' = A + t_a, S = r + H(R', A', M) * a  (a = the seed's secret scalar).
+fn torsion_forgery(seed: &[u8; 32], m: &[u8], t_r: &[u8; 32], t_a: &[u8; 32], prehashed: bool) -> ([u8; 64], [u8; 32]) {
+    let (pk, _) = so::sign_seed_keypair(seed);
+    let h = so::sha512(seed);
+    let mut a = [0u8; 64];
+    a[..32].copy_from_slice(&h[..32]);
+    a[0] &= 248;
+    a[31] &= 127;
+    a[31] |= 64;
+    let a = so::ed25519_scalar_reduce(&a);
+    if so::ed25519_base_noclamp(&a) != Some(pk) {
+        panic!("{} secret scalar does not reproduce the public key", HARNESS);
+    }
+    let r = so::ed25519_scalar_reduce(&sha512_cat(&[b"witness C06 torsion nonce", &a, m]));
+    let rb = so::ed25519_base_noclamp(&r).expect("r != 0");
+    let big_r = so::ed25519_add(&rb, t_r).expect("R + torsion");
+    let pk2 = so::ed25519_add(&pk, t_a).expect("A + torsion");
+    let k = if prehashed {
+        let ph = so::sha512(m);
+        so::ed25519_scalar_reduce(&sha512_cat(&[DOM2_PH, &big_r, &pk2, &ph]))
+    } else {
+        so::ed25519_scalar_reduce(&sha512_cat(&[&big_r, &pk2, m]))
+    };
+    let s_ = so::ed25519_scalar_muladd(&k, &a, &r);
+    let mut sig = [0u8; 64];
+    sig[..32].copy_from_slice(&big_r);
+    sig[32..].copy_from_slice(&s_);
+    (sig, pk2)
+}
+
 pub const C06: Registry = &[
+    // (sig, m, pk) constructed by `torsion_forgery`; same body as verify_verdict
+    ("verify_torsion_component", verify_verdict),
     ("keypair_from_seed", keypair_from_seed),
     ("sign_combined", sign_combined),
     ("sign_detached", sign_detached),
@@ -378,6 +445,39 @@ pub fn c06(ctx: &mut Ctx) -> Search {
                 ctx.run("verify_small_order", Input::new().b("sig", &sig).b("m", &m).b("pk", a))?;
             }
         }
+    }
+
+    // torsion components in R and / or A, pure and pre-hashed construction
+    let tors = torsion_points();
+    let mut accepted = 0usize;
+    let mut rejected = 0usize;
+    for round in 0..(if t { 6 } else { 2 }) {
+        let seed = ctx.rng.arr::<32>();
+        for mlen in [0usize, 17, 129].into_iter().take(if t { 3 } else { 2 }) {
+            let m = ctx.rng.bytes(mlen + round);
+            for t_r in &tors {
+                for t_a in &tors {
+                    for prehashed in [false, true] {
+                        let (sig, pk2) = torsion_forgery(&seed, &m, t_r, t_a, prehashed);
+                        let ok = if prehashed {
+                            so::sign_ph_verify(&[&m], &sig, &pk2)
+                        } else {
+                            so::sign_verify_detached(&sig, &m, &pk2)
+                        };
+                        if ok {
+                            accepted += 1;
+                        } else {
+                            rejected += 1;
+                        }
+                        ctx.run("verify_torsion_component", Input::new().b("sig", &sig).b("m", &m).b("pk", &pk2))?;
+                    }
+                }
+            }
+        }
+    }
+    // the sweep must contain both honest signatures (no torsion) and forgeries, or the construction is off
+    if accepted < 4 || rejected < 100 {
+        panic!("{} torsion sweep: libsodium accepted {} and rejected {}", HARNESS, accepted, rejected);
     }
     Ok(())
 }
